@@ -1,5 +1,6 @@
 (* Ops.v — composite operations exposed to the correspondence check (end to end from bytes). *)
-From GQL.model Require Import Base Utf8 Lexer Ast Parser Prog ParseQuery ParseSchema Json Format.
+From GQL.model Require Import Base Utf8 Lexer Ast Parser Prog ParseQuery ParseSchema Json Format Schema.
+From GQL.gen Require Import Prelude.
 
 Definition dump_json_roundtrip (d : dev) (input : str) : str :=
   match parseQuery d 0 input with
@@ -43,3 +44,24 @@ Definition dump_format_schema (d : dev) (o : fopts) (builtin : bool) (input : st
 
 Definition mk_fopts (flags : str) (indent : str) : fopts :=
   mkFOpts indent (existsb (N.eqb 98) flags) (existsb (N.eqb 100) flags) (existsb (N.eqb 99) flags).
+
+(* ---------------- schema loading (gqlparser.LoadSchema: the prelude comes first) ---------------- *)
+Definition parse_prelude (d : dev) : pres sdoc := parseSchema d 0 0 true prelude_bytes.
+
+(* srcs: user sources in order; pre: the parsed prelude *)
+Definition load_schema_with (d : dev) (pre : pres sdoc) (srcs : list str) : option schema :=
+  match pre with
+  | PErr _ => None
+  | POk pdoc =>
+    match parseSchemas_from d 0 1 (map (fun s => (false, s)) srcs) (merge_sdoc sdoc0 pdoc) with
+    | PErr _ => None
+    | POk sd => validateSchemaDocument sd
+    end
+  end.
+Definition load_schema (d : dev) (srcs : list str) : option schema := load_schema_with d (parse_prelude d) srcs.
+
+Definition dump_load_with (d : dev) (pre : pres sdoc) (srcs : list str) : str :=
+  match load_schema_with d pre srcs with
+  | Some s => b "ok " ++ dump_schema s
+  | None => b "err"
+  end.
